@@ -2,6 +2,7 @@
 From Coq Require Import Bool ZArith List.
 From K Require Import Lib.Types Model.Machine Model.Bus Model.Addressing Model.Exec Spec.ISA Proofs.RegProofs Proofs.EaProofs.
 From K Require Import Model.Cost Model.Alu Model.Exec Proofs.MemProofs Proofs.CtlProofs Proofs.StcProofs.
+From K Require Import Model.Machine Proofs.StepProofs Proofs.StepRefines Proofs.StepRefinesStc.
 Open Scope Z_scope.
 
 Theorem ea_register_indirect :
@@ -51,6 +52,17 @@ Theorem stc_predec_is_postinc :
                 (i <- cs KI 2 ;; d <- csa KM 1 (reg32 s r mod A24) ;; n <- cs KN 2 ;; ret (u8add (u8add i d) n)).
 Proof. exact stc_predec_is_postinc_proof. Qed.
 
+(* STC.W CCR,@ERd (prefix 0140): both instruction words in memory, any state *)
+Theorem step_stc_register_indirect :
+  forall s w1 w2 w3 w4 r n s',
+    cpu_ok s -> bus_bytes_ok s -> fault s = false -> pc s mod 2 = 0 -> 0 <= pc s -> pc s + 4 < 4294967296 ->
+    mem_read SW s (pc s) = Some 0x0140 -> mem_read SW s (pc s + 2) = Some w1 ->
+    decode_ref 0x0140 w1 w2 w3 w4 = Some (IStcW (EInd r), 4) ->
+    sem_ref (IStcW (EInd r)) 4 s = Some s' ->
+    (i <- cs KI 2 ;; d <- csa KM 1 (ea_addr SW s (EInd r)) ;; ret (u8add i d)) (set_opc (pc s + 2) s') = Ok n (set_opc (pc s + 2) s') ->
+    step s = Ok n (set_opc (pc s + 2) s').
+Proof. exact step_stc_ern_proof. Qed.
+
 Print Assumptions ea_register_indirect.
 Print Assumptions ea_displacement_16.
 Print Assumptions ea_displacement_24.
@@ -61,3 +73,4 @@ Print Assumptions post_increment_register.
 Print Assumptions pre_decrement_register.
 Print Assumptions stc_register_indirect.
 Print Assumptions stc_predec_is_postinc.
+Print Assumptions step_stc_register_indirect.
